@@ -124,9 +124,10 @@ Definition sch_postc (pc : sch_spc) : Z := match pc with SchSPostC _ => 1 | _ =>
 
 (* the counters and the single-flight flag *)
 Definition sch_invB (s : sch_state) : Prop :=
-  (forall c, sch_cnt (c, SchTRunning) (sch_tasks s) = (if sch_running (sch_cks s c) then 1 else 0)%nat) /\
-  sch_pcount s = Z.of_nat (sch_live (sch_tasks s)) + sch_postc (sch_pc s) /\
-  sch_pcount s + sch_pre (sch_pc s) <= sch_max s.
+  (forall c, (sch_cnt (c, SchTRunning) (sch_tasks s) + sch_fcnt c (sch_flights s) + sch_fcnt c (sch_fdone s))%nat
+             = (if sch_running (sch_cks s c) then 1 else 0)%nat) /\
+  sch_pcount s = Z.of_nat (sch_live (sch_tasks s)) + Z.of_nat (length (sch_flights s)) + sch_postc (sch_pc s) /\
+  Z.of_nat (sch_slots (sch_tasks s) (sch_flights s)) + sch_pre (sch_pc s) + sch_postc (sch_pc s) <= sch_max s.
 
 Ltac sch_cases H :=
   unfold sch_exec in H;
@@ -204,7 +205,7 @@ Ltac sch_fin :=
 Lemma sch_invA_step s a s' : sch_exec s a = Some s' -> sch_invA s -> sch_invA s'.
 Proof.
   intros H I. apply sch_invA_ck in I. destruct I as (ND1 & ND2 & CK). apply sch_invA_ck.
-  destruct a; sch_cases H; cbn [sch_idle sch_pend sch_s_sets sch_s_cks sch_s_tasks sch_s_pc sch_s_clock];
+  destruct a; sch_cases H; cbn [sch_idle sch_pend sch_s_sets sch_s_cks sch_s_tasks sch_s_pc sch_s_clock sch_s_fl];
     (split; [|split]);
     try assumption; try (apply sch_nodup_erase; assumption); try (apply sch_nodup_insert; assumption);
     try (apply sch_nodup_insert; apply sch_nodup_erase; assumption);
@@ -215,7 +216,7 @@ Proof.
   all: try match goal with U : sch_unlocked _ = true |- _ => apply (sch_unlocked_held _ c0) in U end.
   all: revert D0 H0 C0; repeat match goal with Hm : sch_mem _ _ = _ |- _ => revert Hm end.
   all: rewrite ?sch_held_pc.
-  all: cbn [sch_idle sch_pend sch_pc sch_cks sch_s_sets sch_s_cks sch_s_tasks sch_s_pc sch_s_clock].
+  all: cbn [sch_idle sch_pend sch_pc sch_cks sch_s_sets sch_s_cks sch_s_tasks sch_s_pc sch_s_clock sch_s_fl].
   all: try match goal with Hp : sch_pc _ = _ |- _ => rewrite ?Hp end.
   all: rewrite <- ?sch_held_pc.
   all: try match goal with U : sch_held _ _ = false |- _ => rewrite ?U end.
@@ -234,18 +235,70 @@ Qed.
 Lemma sch_live_cons y l : sch_live (y :: l) = ((if sch_is_live y then 1 else 0) + sch_live l)%nat.
 Proof. unfold sch_live. cbn [filter]. destruct (sch_is_live y); reflexivity. Qed.
 
+(* ---- asynchronous executions (multiset of ids) ---- *)
+Lemma sch_fcnt_rem1 x c l : sch_fmem c l = true ->
+  sch_fcnt x l = (sch_fcnt x (sch_frem1 c l) + (if Nat.eqb x c then 1 else 0))%nat.
+Proof.
+  induction l as [|y l IH]; [discriminate|]. cbn [sch_fmem existsb sch_frem1 sch_fcnt]. intros H.
+  destruct (Nat.eqb_spec c y) as [E|E].
+  - subst y. lia.
+  - cbn [orb] in H. cbn [sch_fcnt]. rewrite (IH H). lia.
+Qed.
+
+Lemma sch_flen_rem1 c l : sch_fmem c l = true -> length l = S (length (sch_frem1 c l)).
+Proof.
+  induction l as [|y l IH]; [discriminate|]. cbn [sch_fmem existsb sch_frem1]. intros H.
+  destruct (Nat.eqb_spec c y) as [E|E]; [reflexivity|]. cbn [orb] in H. cbn [length]. rewrite (IH H). reflexivity.
+Qed.
+
+Lemma sch_fcnt_mem c l : (1 <= sch_fcnt c l)%nat -> sch_fmem c l = true.
+Proof.
+  induction l as [|y l IH]; cbn [sch_fcnt sch_fmem existsb]; [lia|]. intros H.
+  destruct (Nat.eqb c y); [reflexivity|]. cbn [orb]. apply IH. lia.
+Qed.
+
+Lemma sch_fmem_cnt c l : sch_fmem c l = true -> (1 <= sch_fcnt c l)%nat.
+Proof.
+  induction l as [|y l IH]; cbn [sch_fcnt sch_fmem existsb]; [discriminate|].
+  destruct (Nat.eqb c y); [lia|]. cbn [orb]. intros H. specialize (IH H). lia.
+Qed.
+
+Definition sch_nslot (l : list (nat * sch_tpc)) : nat := length (filter sch_is_slot l).
+
+Lemma sch_nslot_cons y l : sch_nslot (y :: l) = ((if sch_is_slot y then 1 else 0) + sch_nslot l)%nat.
+Proof. unfold sch_nslot. cbn [filter]. destruct (sch_is_slot y); reflexivity. Qed.
+
+Lemma sch_nslot_rem1 y l : sch_has y l = true ->
+  sch_nslot l = (sch_nslot (sch_rem1 y l) + (if sch_is_slot y then 1 else 0))%nat.
+Proof.
+  intros H. unfold sch_nslot. rewrite (Permutation_length (sch_filter_rem1 sch_is_slot y l H)).
+  destruct (sch_is_slot y); cbn [length]; lia.
+Qed.
+
+Lemma sch_nslot_live l : (sch_nslot l <= sch_live l)%nat.
+Proof.
+  unfold sch_nslot, sch_live. induction l as [|[c p] l IH]; [cbn; lia|].
+  cbn [filter]. unfold sch_is_slot at 1, sch_is_live at 1. cbn [snd].
+  destruct p; cbn [sch_tpc_eqb negb length]; lia.
+Qed.
+
 Lemma sch_invB_step s a s' : sch_exec s a = Some s' -> sch_invB s -> sch_invB s'.
 Proof.
-  intros H (F & CN & BD). unfold sch_invB.
+  intros H (F & CN & BD). unfold sch_invB, sch_slots in *. fold (sch_nslot (sch_tasks s)) in BD. fold (sch_nslot (sch_tasks s')).
+  pose proof (sch_nslot_live (sch_tasks s)) as NL.
   destruct a; sch_cases H; unfold sch_s_pc;
-    cbn [sch_tasks sch_pcount sch_pc sch_cks sch_max sch_s_sets sch_s_cks sch_s_tasks sch_s_clock] in *.
+    cbn [sch_tasks sch_flights sch_fdone sch_pcount sch_pc sch_cks sch_max sch_s_sets sch_s_cks sch_s_tasks sch_s_clock sch_s_fl] in *.
   all: try match goal with Hp : sch_pc _ = _ |- _ => rewrite ?Hp in CN, BD end.
   all: try match goal with Hh : sch_has _ _ && _ = true |- _ => apply andb_true_iff in Hh; destruct Hh as [Hh _] end.
   all: try match goal with Hh : sch_has ?y ?l = true |- _ =>
-         pose proof (sch_live_rem1 y l Hh) as HL; pose proof (fun c0 => sch_cnt_rem1 (c0, SchTRunning) y l Hh) as HC end.
+         pose proof (sch_live_rem1 y l Hh) as HL; pose proof (fun c0 => sch_cnt_rem1 (c0, SchTRunning) y l Hh) as HC;
+         pose proof (sch_nslot_rem1 y l Hh) as HS end.
+  all: try match goal with Hh : sch_fmem ?y ?l = true |- _ =>
+         pose proof (sch_flen_rem1 y l Hh) as HFL; pose proof (fun c0 => sch_fcnt_rem1 c0 y l Hh) as HFC end.
   all: (split; [|split]).
-  all: try (intros c0; specialize (F c0); try specialize (HC c0)).
-  all: rewrite ?sch_live_cons; cbn [sch_cnt] in *; unfold sch_task_eqb, sch_is_live in *; cbn [sch_tpc_eqb fst snd negb sch_pre sch_postc] in *;
+  all: try (intros c0; specialize (F c0); try specialize (HC c0); try specialize (HFC c0)).
+  all: rewrite ?sch_live_cons, ?sch_nslot_cons; cbn [sch_cnt sch_fcnt length] in *;
+       unfold sch_task_eqb, sch_is_live, sch_is_slot in *; cbn [sch_tpc_eqb fst snd negb sch_pre sch_postc] in *;
        rewrite ?andb_false_r, ?andb_true_r in *; unfold sch_upd.
   all: try match goal with Hb : _ && _ && (_ <? _) = true |- _ => apply andb_true_iff in Hb; destruct Hb as [_ Hb]; apply Z.ltb_lt in Hb end.
   all: sch_eqb; cbn [sch_running sch_k_next sch_k_active sch_k_paused sch_k_force sch_k_env sch_k_running sch_k_handled] in *;
@@ -325,23 +378,39 @@ Proof.
 Qed.
 
 (* ---- C04_single_flight / C04_concurrency ---- *)
+(* executions of c in flight: synchronous ones inside Execute(), asynchronous ones whose process is alive, and
+   asynchronous ones whose result is on its way into ProcessCheckResult *)
+Definition sch_inflight (s : sch_state) (c : nat) : nat :=
+  (sch_cnt (c, SchTRunning) (sch_tasks s) + sch_fcnt c (sch_flights s) + sch_fcnt c (sch_fdone s))%nat.
+
 Lemma sch_thm_single_flight zone next max l s c :
   0 <= max -> sch_run (sch_init zone next max) l = Some s ->
-  (sch_cnt (c, SchTRunning) (sch_tasks s) <= 1)%nat /\
-  (sch_cnt (c, SchTRunning) (sch_tasks s) = 1%nat -> sch_running (sch_cks s c) = true).
+  (sch_inflight s c <= 1)%nat /\ (sch_inflight s c = 1%nat -> sch_running (sch_cks s c) = true).
 Proof.
   intros Hm H. destruct (sch_inv_run l _ _ (sch_invA_init zone next max) (sch_invB_init zone next max Hm) H) as [_ (F & _ & _)].
-  specialize (F c). destruct (sch_running (sch_cks s c)); split; intros; try reflexivity; lia.
+  specialize (F c). unfold sch_inflight. destruct (sch_running (sch_cks s c)); split; intros; try reflexivity; lia.
 Qed.
 
+Lemma sch_runlist_nslot l : (length (sch_runlist l) <= sch_nslot l)%nat.
+Proof.
+  unfold sch_runlist, sch_nslot. rewrite map_length. induction l as [|[c p] l IH]; [cbn; lia|].
+  cbn [filter]. unfold sch_is_run at 1, sch_is_slot at 1. cbn [snd].
+  destruct p; cbn [sch_tpc_eqb negb length]; lia.
+Qed.
+
+(* executions at work (synchronous commands inside Execute + asynchronous processes alive) <= occupied slots <= max;
+   the pending-check counter covers every occupied slot (it may exceed max: an asynchronous command counts itself
+   once more while its ExecuteCheckHelper has not yet counted down) *)
 Lemma sch_thm_concurrency zone next max l s :
   0 <= max -> sch_run (sch_init zone next max) l = Some s ->
-  Z.of_nat (length (sch_runlist (sch_tasks s))) <= Z.of_nat (sch_live (sch_tasks s)) /\
-  Z.of_nat (sch_live (sch_tasks s)) <= sch_pcount s /\ sch_pcount s <= max.
+  (length (sch_runlist (sch_tasks s)) + length (sch_flights s) <= sch_slots (sch_tasks s) (sch_flights s))%nat /\
+  Z.of_nat (sch_slots (sch_tasks s) (sch_flights s)) <= max /\
+  Z.of_nat (sch_slots (sch_tasks s) (sch_flights s)) <= sch_pcount s.
 Proof.
   intros Hm H. destruct (sch_inv_run l _ _ (sch_invA_init zone next max) (sch_invB_init zone next max Hm) H) as [_ (_ & CN & BD)].
   rewrite (sch_max_run _ _ _ H) in BD. cbn [sch_max sch_init] in BD.
-  pose proof (sch_runlist_live (sch_tasks s)).
+  pose proof (sch_runlist_nslot (sch_tasks s)). pose proof (sch_nslot_live (sch_tasks s)).
+  unfold sch_slots in *. fold (sch_nslot (sch_tasks s)) in *.
   destruct (sch_pc s); cbn [sch_pre sch_postc] in *; lia.
 Qed.
 
@@ -383,11 +452,11 @@ Qed.
 (* ---- the running flag can never wedge ----
    reset points in the code: the FIRST statement of Checkable::ProcessCheckResult clears m_CheckRunning under the
    ObjectLock, before any early return (null result, agent check, inactive object, result older than the stored one).
-   [SchATaskResult c v] is that entry for the task's own result, accepted or rejected alike (for a rejected result
-   v is the unchanged next_check: the function returns before UpdateNextCheck). *)
+   [SchATaskResult c v] / [SchAFlightResult c v] is that entry for the execution's own result, accepted or rejected
+   alike (for a rejected result v is the unchanged next_check: the function returns before UpdateNextCheck). *)
 Lemma sch_thm_flag_exact zone next max l s c :
   0 <= max -> sch_run (sch_init zone next max) l = Some s ->
-  sch_cnt (c, SchTRunning) (sch_tasks s) = (if sch_running (sch_cks s c) then 1 else 0)%nat.
+  sch_inflight s c = (if sch_running (sch_cks s c) then 1 else 0)%nat.
 Proof.
   intros Hm H. destruct (sch_inv_run l _ _ (sch_invA_init zone next max) (sch_invB_init zone next max Hm) H) as [_ (F & _ & _)].
   apply F.
@@ -399,25 +468,97 @@ Proof.
   destruct (sch_task_eqb x y); [reflexivity|]. cbn [orb]. apply IH. lia.
 Qed.
 
-(* flag set => exactly one execution is in flight, its result-processing step is enabled (whatever the outcome), and
-   that step clears the flag; flag clear => the next test-and-set starts the command *)
+Lemma sch_has_cnt x l : sch_has x l = true -> (1 <= sch_cnt x l)%nat.
+Proof.
+  induction l as [|y l IH]; cbn [sch_cnt sch_has existsb]; [discriminate|].
+  destruct (sch_task_eqb x y); [lia|]. cbn [orb]. intros H. specialize (IH H). lia.
+Qed.
+
+(* the steps through which the one execution in flight delivers its result are enabled and end with the flag clear *)
+Definition sch_can_finish (s : sch_state) (c : nat) : Prop :=
+  (sch_has (c, SchTRunning) (sch_tasks s) = true /\
+     forall v, exists s', sch_exec s (SchATaskResult c v) = Some s' /\ sch_running (sch_cks s' c) = false) \/
+  (sch_fmem c (sch_flights s) = true /\
+     exists s1, sch_exec s (SchAFlightDone c) = Some s1 /\
+       forall v, exists s', sch_exec s1 (SchAFlightResult c v) = Some s' /\ sch_running (sch_cks s' c) = false) \/
+  (sch_fmem c (sch_fdone s) = true /\
+     forall v, exists s', sch_exec s (SchAFlightResult c v) = Some s' /\ sch_running (sch_cks s' c) = false).
+
+(* flag set => exactly one execution is in flight (synchronous or asynchronous), its result-processing step is enabled
+   (whatever the outcome), and that step clears the flag; flag clear => the next test-and-set starts the command *)
 Lemma sch_thm_no_wedge zone next max l s c :
   0 <= max -> sch_run (sch_init zone next max) l = Some s ->
-  (sch_running (sch_cks s c) = true ->
-     sch_cnt (c, SchTRunning) (sch_tasks s) = 1%nat /\
-     forall v, exists s', sch_exec s (SchATaskResult c v) = Some s' /\ sch_running (sch_cks s' c) = false) /\
+  (sch_running (sch_cks s c) = true -> sch_inflight s c = 1%nat /\ sch_can_finish s c) /\
   (sch_running (sch_cks s c) = false -> sch_has (c, SchTUpdated) (sch_tasks s) = true ->
      exists s', sch_exec s (SchATaskTas c) = Some s' /\ sch_observe s (SchATaskTas c) = [SchEvStart (sch_zid c)]).
 Proof.
   intros Hm H. pose proof (sch_thm_flag_exact zone next max l s c Hm H) as F. split.
-  - intros R. rewrite R in F. split; [exact F|]. intros v.
-    assert (Hh : sch_has (c, SchTRunning) (sch_tasks s) = true) by (apply sch_cnt_has; lia).
-    unfold sch_exec. rewrite Hh. eexists. split; [reflexivity|].
-    cbn [sch_cks sch_s_tasks sch_s_cks]. rewrite sch_upd_same. reflexivity.
+  - intros R. rewrite R in F. split; [exact F|]. unfold sch_inflight in F. unfold sch_can_finish.
+    destruct (sch_has (c, SchTRunning) (sch_tasks s)) eqn:Hh.
+    { left. split; [reflexivity|]. intros v. unfold sch_exec. rewrite Hh. eexists. split; [reflexivity|].
+      cbn [sch_cks sch_s_tasks sch_s_cks]. rewrite sch_upd_same. reflexivity. }
+    destruct (sch_fmem c (sch_flights s)) eqn:Hf.
+    { right. left. split; [reflexivity|]. unfold sch_exec at 1. rewrite Hf. eexists. split; [reflexivity|].
+      intros v. unfold sch_exec. cbn [sch_fdone sch_s_fl sch_fmem existsb]. rewrite Nat.eqb_refl. cbn [orb].
+      eexists. split; [reflexivity|]. cbn [sch_cks sch_s_fl sch_s_cks sch_s_tasks]. rewrite sch_upd_same. reflexivity. }
+    destruct (sch_fmem c (sch_fdone s)) eqn:Hd.
+    { right. right. split; [reflexivity|]. intros v. unfold sch_exec. rewrite Hd. eexists. split; [reflexivity|].
+      cbn [sch_cks sch_s_fl sch_s_cks]. rewrite sch_upd_same. reflexivity. }
+    exfalso.
+    assert (sch_cnt (c, SchTRunning) (sch_tasks s) = 0%nat).
+    { destruct (sch_cnt (c, SchTRunning) (sch_tasks s)) eqn:E; [reflexivity|]. rewrite sch_cnt_has in Hh; [discriminate|lia]. }
+    assert (sch_fcnt c (sch_flights s) = 0%nat).
+    { destruct (sch_fcnt c (sch_flights s)) eqn:E; [reflexivity|]. rewrite sch_fcnt_mem in Hf; [discriminate|lia]. }
+    assert (sch_fcnt c (sch_fdone s) = 0%nat).
+    { destruct (sch_fcnt c (sch_fdone s)) eqn:E; [reflexivity|]. rewrite sch_fcnt_mem in Hd; [discriminate|lia]. }
+    lia.
   - intros R Hh. unfold sch_exec, sch_observe. rewrite Hh, R. eexists. split; reflexivity.
 Qed.
 
 (* every result processing - the step itself, from any state - leaves the flag clear *)
 Lemma sch_thm_result_clears s c v s' :
-  sch_exec s (SchATaskResult c v) = Some s' -> sch_running (sch_cks s' c) = false.
-Proof. intros H. sch_cases H. cbn [sch_cks sch_s_tasks sch_s_cks]. rewrite sch_upd_same. reflexivity. Qed.
+  sch_exec s (SchATaskResult c v) = Some s' \/ sch_exec s (SchAFlightResult c v) = Some s' -> sch_running (sch_cks s' c) = false.
+Proof.
+  intros [H|H]; sch_cases H; cbn [sch_cks sch_s_tasks sch_s_cks sch_s_fl]; rewrite sch_upd_same; reflexivity.
+Qed.
+
+(* ---- asynchronous check commands: the flag stays set until the result is processed ----
+   (a) the steps "Execute() returned, result outstanding" and "process ended, slot counted down" do not touch any
+       m_CheckRunning;
+   (b) in every reachable state: an asynchronous execution of c in flight => flag set, the test-and-set of any further
+       ExecuteCheck of c is enabled only as the guard return (no start event), and it does not create a second execution *)
+Lemma sch_thm_flag_until_result_step s a s' c' :
+  sch_exec s a = Some s' -> (exists c, a = SchATaskLaunch c \/ a = SchAFlightDone c) ->
+  sch_running (sch_cks s' c') = sch_running (sch_cks s c').
+Proof. intros H (c & [->| ->]); sch_cases H; reflexivity. Qed.
+
+Lemma sch_thm_flag_until_result zone next max l s c :
+  0 <= max -> sch_run (sch_init zone next max) l = Some s ->
+  sch_fmem c (sch_flights s) || sch_fmem c (sch_fdone s) = true ->
+  sch_running (sch_cks s c) = true /\
+  sch_observe s (SchATaskTas c) = [] /\
+  (forall s', sch_exec s (SchATaskTas c) = Some s' ->
+     sch_inflight s' c = 1%nat /\ sch_flights s' = sch_flights s /\ sch_fdone s' = sch_fdone s /\
+     sch_cnt (c, SchTRunning) (sch_tasks s') = 0%nat).
+Proof.
+  intros Hm H Hf. pose proof (sch_thm_flag_exact zone next max l s c Hm H) as F. unfold sch_inflight in *.
+  assert (Hc : (1 <= sch_fcnt c (sch_flights s) + sch_fcnt c (sch_fdone s))%nat).
+  { apply orb_true_iff in Hf. destruct Hf as [Hf|Hf]; apply sch_fmem_cnt in Hf; lia. }
+  destruct (sch_running (sch_cks s c)) eqn:R; [|lia].
+  split; [reflexivity|]. split; [unfold sch_observe; rewrite R; reflexivity|].
+  intros s' E. sch_cases E; [|congruence].
+  cbn [sch_tasks sch_flights sch_fdone sch_s_tasks].
+  pose proof (sch_cnt_rem1 (c, SchTRunning) (c, SchTUpdated) _ Heqb) as HC.
+  cbn [sch_cnt]. unfold sch_task_eqb in *. cbn [fst snd sch_tpc_eqb] in *. rewrite andb_false_r in *.
+  repeat split; lia.
+Qed.
+
+(* ---- remote (command_endpoint) executions: the flag is released before ExecuteCheck returns, as the code has it ---- *)
+Lemma sch_thm_remote_releases s c ov s' :
+  sch_exec s (SchATaskRemote c ov) = Some s' ->
+  sch_running (sch_cks s' c) = false /\ sch_has (c, SchTReturned) (sch_tasks s') = true /\
+  sch_flights s' = sch_flights s /\ sch_fdone s' = sch_fdone s.
+Proof.
+  intros H. sch_cases H. cbn [sch_cks sch_tasks sch_flights sch_fdone sch_s_tasks sch_s_cks]. rewrite sch_upd_same.
+  cbn [sch_has existsb]. unfold sch_task_eqb. cbn [fst snd sch_tpc_eqb]. rewrite Nat.eqb_refl. repeat split; reflexivity.
+Qed.
